@@ -80,9 +80,18 @@ def check_theorems(module):
         return dict(obligations=1, discharged=0, axioms=[], theorems=[], problems=["lake build %s failed" % module] + errs,
                     build_failed=True, raw=out[-4000:])
     path = os.path.join(LEAN, module.replace(".", "/") + ".lean")
-    rc, out = sh(["lake", "env", "lean", path], cwd=LEAN, timeout=1800)
-    if rc != 0:
-        problems.append("re-elaboration of %s failed" % module)
+    src = open(path).read()
+    ns = re.search(r"^namespace\s+([\w.]+)", src, flags=re.M)
+    nsname = ns.group(1) if ns else "Hb"
+    # lake replays the cached log of an up-to-date module, so the `#print axioms` lines are in `out`;
+    # keep only this module's theorems. Fall back to re-elaboration if they are not there.
+    own = "\n".join(l for l in out.splitlines() if ("'" + nsname + ".") in l)
+    if "depends on axioms" not in own and "does not depend on any axioms" not in own:
+        rc, out2 = sh(["lake", "env", "lean", path], cwd=LEAN, timeout=1800)
+        if rc != 0:
+            problems.append("re-elaboration of %s failed" % module)
+        own = out2
+    out = own
     theorems, axioms = [], set()
     for m in re.finditer(r"'([\w.']+)' depends on axioms: \[([^\]]*)\]", out):
         theorems.append(m.group(1))
@@ -92,7 +101,6 @@ def check_theorems(module):
                 axioms.add(a)
     for m in re.finditer(r"'([\w.']+)' does not depend on any axioms", out):
         theorems.append(m.group(1))
-    src = open(path).read()
     declared = re.findall(r"^theorem\s+([\w.']+)", strip_comments(src), flags=re.M)
     printed = set(t.split(".")[-1] for t in theorems)
     for d in declared:
